@@ -1167,12 +1167,12 @@ def tier_c(run, thorough):
 
     # ---- RDMs ----------------------------------------------------------------------------------------
     bd = Bounded(run, 'C16/rdms', 'C16/RDMs.save-load_rdm/oracle/roundtrip',
-                 'RDMs n_rdm in {1,2,3,12} x n_cond in {2,3,5}; values plain/NaN/inf/float32/int/-0.0; measure str/unicode/None; '
+                 'RDMs n_rdm in {1,2,3,12} x n_cond in {2,3,5} (quick: 5 of the 12 shapes); values plain/NaN/inf/float32/int/-0.0; measure str/unicode/None; '
                  'all %d harmless `descriptors` value kinds and %d per-RDM/per-pattern descriptor kinds together, ascii and unicode '
                  'keys; hdf5+pkl; 7 targets (path .h5/.hdf5/.pkl/neutral suffix, overwrite on fresh path, file handle, reopened, '
                  'BytesIO; all 7 only for 2 shapes in quick)' % (len(SAFE_DESC), len(SAFE_AXIS)), function='RDMs.save')
     for fmt in fmts:
-        for n_rdm, n_cond in itertools.product((1, 2, 3, 12), (2, 3, 5)):
+        for n_rdm, n_cond in (itertools.product((1, 2, 3, 12), (2, 3, 5)) if thorough else ((1, 2), (1, 3), (2, 5), (3, 5), (12, 3))):
             for vals, measure in (('plain', 'str'), ('naninf', 'none'), ('f4', 'ustr'), ('int', 'str'), ('negzero', 'str')):
                 for target in (TARGETS if (thorough or (n_rdm, n_cond) in ((1, 3), (3, 5))) else ('path', 'bytesio')):
                     bd.check(orc_rdms, dict(n_rdm=n_rdm, n_cond=n_cond, vals=vals, measure=measure, desc=SAFE_DESC,
@@ -1185,16 +1185,16 @@ def tier_c(run, thorough):
 
     # ---- Dataset / TemporalDataset -------------------------------------------------------------------
     bd = Bounded(run, 'C16/dataset', 'C16/DatasetBase.save-load_dataset/oracle/roundtrip',
-                 'Dataset n_obs in {1,2,6} x n_channel in {1,3}; TemporalDataset additionally n_time in {1,2,4}; values '
+                 'Dataset n_obs in {1,2,6} x n_channel in {1,3}; TemporalDataset additionally n_time in {1,2,4} (quick: without the 2s); values '
                  'plain/NaN/inf/float32/int; all harmless `descriptors` value kinds (incl. a noise precision matrix) and '
                  'obs/channel/time descriptor kinds together, ascii and unicode keys; hdf5+pkl; 7 targets (all 7 only for 4 shapes '
                  'in quick)', function='DatasetBase.save')
     for fmt in fmts:
         for kind in ('dataset', 'temporal'):
-            for n_obs, n_ch in itertools.product((1, 2, 6), (1, 3)):
-                for n_t in ((1, 2, 4) if kind == 'temporal' else (0,)):
+            for n_obs, n_ch in itertools.product((1, 2, 6) if thorough else (1, 6), (1, 3)):
+                for n_t in (((1, 2, 4) if thorough else (1, 4)) if kind == 'temporal' else (0,)):
                     for vals in ('plain', 'naninf', 'f4', 'int'):
-                        full = thorough or (n_obs, n_ch, n_t) in ((6, 3, 0), (1, 1, 0), (6, 3, 4), (2, 1, 1))
+                        full = thorough or (n_obs, n_ch, n_t) in ((6, 3, 0), (1, 1, 0), (6, 3, 4), (1, 1, 1))
                         if not full and vals in ('f4', 'int'):
                             continue
                         for target in (TARGETS if full else ('path', 'bytesio')):
@@ -1275,14 +1275,15 @@ def tier_c(run, thorough):
     for fmt in fmts:
         for n_model in counts:
             for mix in mixes:
-                for target in (('path', 'file', 'bytesio', 'path-overwrite-fresh') if (thorough or n_model in (2, 12)) else ('path',)):
+                for target in (('path', 'file', 'bytesio', 'path-overwrite-fresh') if ((thorough and n_model < 100) or n_model in (2, 12))
+                               else ('path', 'bytesio') if thorough else ('path',)):
                     bd.check(orc_result, dict(n_model=n_model, model_kinds=mix, variances='2d-nc', n_rdm=8, n_pattern=4,
                                               fmt=fmt, target=target, seed=n_model), 'generic', function='result_from_dict')
         for n_model in (1, 2, 4, 12):
             for vk in ('none', '0d', '1d', '1d-nc', '2d', '2d-nc', '3d', '3d-nc'):
                 if vk == '0d' and n_model != 1:
                     continue
-                for nrp in ((None, None), (8, 4), (8, None)):
+                for nrp in (((None, None), (8, 4), (8, None)) if thorough else ((None, None), (8, 4))):
                     for cvm, nd, nc in (('bootstrap_rdm', 3, '1d'), ('fixed', 3, '1d'), ('crossvalidation', 3, '1d'),
                                         ('bootstrap_crossval', 4, '2d'), ('bootstrap_pattern', 2, '2d')):
                         if not thorough and (n_model, cvm) not in ((1, 'bootstrap_rdm'), (2, 'fixed'), (4, 'bootstrap_crossval'),
